@@ -19,6 +19,8 @@ def conditions(tier):
     cs.append(dict(module="vf.ch.h_c03_graph", func="_g3_fwd", cases=36, what="make_jvp on 3-op programs, symbolic wiring"))
     cs.append(dict(module="vf.ch.h_c03_graph", func="_g3_cf_rev", cases=72, what="3-op programs with value-dependent Python control flow, reverse mode", timeout={"quick": 120, "thorough": 600}))
     cs.append(dict(module="vf.ch.h_c03_graph", func="_g3_cf_fwd", cases=72, what="3-op programs with value-dependent Python control flow, forward mode", timeout={"quick": 120, "thorough": 600}))
+    cs.append(dict(module="vf.ch.h_c10", func="_foldt3", cases=6, what="accumulation of three container-valued (tuple) cotangents incl. aliasing: element-wise sum"))
+    cs.append(dict(module="vf.ch.h_c10", func="_foldt4", cases=24, what="accumulation of four container-valued cotangents"))
     cs.append(dict(module="vf.ch.h_c03_graph", func="_g3_reach", expect="counterexample", what="reachability twin"))
     if tier == "thorough":
         for pre in itertools.product(range(3), repeat=4):
